@@ -65,7 +65,68 @@ def has_exit_in_finally(fn):
     return found[0]
 
 
-def check_stream(stream, res, loops, fn):
+def has_return_under_finally(fn):
+    """a return statement inside the body / a handler / the else part of a try that has a finally clause"""
+    found = [False]
+
+    def scan(stmts, guarded):
+        for s in stmts:
+            if guarded and s[0] == "return":
+                found[0] = True
+            if s[0] == "for":
+                scan(s[3], guarded); scan(s[4], guarded)
+            elif s[0] == "while":
+                scan(s[2], guarded)
+            elif s[0] == "if":
+                scan(s[2], guarded); scan(s[3], guarded)
+            elif s[0] == "try":
+                g = guarded or bool(s[4])
+                scan(s[1], g)
+                for h in s[2]:
+                    scan(h[2], g)
+                scan(s[3], g); scan(s[4], guarded)
+            elif s[0] == "with":
+                scan(s[3], guarded)
+    scan(fn["body"], False)
+    return found[0]
+
+
+WITNESS_D = '''
+def wd():
+    try:
+        return 1
+    finally:
+        R(7)
+'''
+
+
+def witness_d(chk):
+    """finding F7d replayed: a return whose completion is pre-empted by an exception raised in the finally clause
+    has already reported its value"""
+    import ptera
+    mod = pyprog.make_module(pylite.HELPERS + WITNESS_D, "verif_c06_witness_d")
+    stream = []
+    prb = ptera.Probe("wd > #value", "wd > #error", env=mod.__dict__)
+    prb.subscribe(lambda d: stream.extend(d.keys()))
+    raised = None
+    with prb:
+        try:
+            mod.wd()
+        except Exception as e:
+            raised = type(e).__name__
+    pyprog.drop_module(mod)
+    chk.count(("witness-F7d",))
+    chk.cov["oracle"]["F7d_witness"] = {"raised": raised, "events": stream}
+    if raised == "Boom" and stream == ["#error"]:
+        return
+    if raised == "Boom" and stream == ["#value", "#error"] and chk.is_known("F7d"):
+        chk.known_finding("F7d", "wd() ends by raising Boom from its finally clause but delivered %r: the return "
+                          "had already reported its value" % stream)
+    else:
+        chk.violation("oracle", "wd() raised %r with events %r" % (raised, stream), {"source": WITNESS_D})
+
+
+def check_stream(stream, res, loops, fn, gscript=None):
     """-> list of problems"""
     problems = []
     names = [n for n, _ in stream]
@@ -98,15 +159,24 @@ def check_stream(stream, res, loops, fn):
         if yvals != seen:
             problems.append("driver saw yields %r, #yield events %r" % (seen, yvals))
         # pairing: after each #yield the next yield-related event is #receive (or nothing if never resumed)
+        # a resumption by throw / close / drop sends nothing: no #receive for that suspension
         pend = False
+        k = -1
         for n in names:
             if n == "#yield":
                 if pend:
-                    problems.append("two #yield without #receive in between")
+                    op = (gscript or [])[k + 1][0] if gscript and k + 1 < len(gscript) else None
+                    if op not in ("throw", "close", "drop", None):
+                        problems.append("two #yield without #receive in between")
+                k += 1
                 pend = True
             elif n == "#receive":
                 if not pend:
                     problems.append("#receive without a pending #yield")
+                else:
+                    op = (gscript or [])[k + 1][0] if gscript and k + 1 < len(gscript) else None
+                    if op in ("throw", "close", "drop"):
+                        problems.append("#receive although the generator was resumed by %s" % op)
                 pend = False
         stops = [y for y in ys if y[0] == "stop"]
         if stops:
@@ -223,7 +293,7 @@ def run(chk):
         if fn["generator"] and not stream and not any(y[0] in ("y", "stop") for y in res["yields"]) \
                 and not res["log"]:
             continue        # the generator object was closed or dropped before its body ever started
-        problems = check_stream(stream, res, loops, fn)
+        problems = check_stream(stream, res, loops, fn, gscript)
         if problems:
             replay = {"source": src, "args": args, "script": script, "gen_script": gscript,
                       "stream": [(n, progrun.plain(v) if not isinstance(v, BaseException) else type(v).__name__)
@@ -233,12 +303,18 @@ def run(chk):
                 chk.known_finding("F7c", "a return whose value was reported is then cancelled / replaced by a "
                                   "return, break or continue inside a finally clause: %s" % problems[0][:120])
                 stats["known"]["F7c"] = stats["known"].get("F7c", 0) + 1
+            elif problems == ["#value although the activation ended by raising"] and has_return_under_finally(fn) \
+                    and chk.is_known("F7d"):
+                chk.known_finding("F7d", "a return under a finally clause reported its value, then the finally clause "
+                                  "raised: %s" % str(res["outcome"])[:100])
+                stats["known"]["F7d"] = stats["known"].get("F7d", 0) + 1
             else:
                 chk.violation("oracle", "meta-event stream violates the bracket discipline: %s" % "; ".join(problems)[:300],
                               replay)
         if i % 50 == 0:
             chk.sample({"source": src, "stream": names, "outcome": res["outcome"]})
     witness(chk)
+    witness_d(chk)
     chk.cov["oracle"]["streams"] = stats
 
 
